@@ -37,8 +37,6 @@ var justifications = map[string]string{
 	"IDX|pfcpiface.(*UP4).sendCreate|‹PacketForwardingRules›.pdrs[‹int›]":                                               "relational: sendCreate is only called for an establishment, where the handler appends every PDR to session.pdrs and to addPDRs in lock-step from empty lists, so len(all.pdrs) == len(updated.pdrs) (secondary check R01.J1: the establishment loop appends to both on every path)",
 	"IDX|pfcpiface.(*UP4).sendCreate|‹PacketForwardingRules›.pdrs[‹int›] #2":                                            "same relational argument as the previous line (second use of the same index in the loop body)",
 	"NIL|pfcpiface.releaseAllocatedIPs|‹IPPool›.DeallocIP(‹PFCPSession›.localSEID)":                                     "reached only for a PDR with allocIPFlag set, which parseUEAddressIE sets only after ippool.LookupOrAllocIP succeeded on a non-nil pool (secondary check R01.J5: the store of allocIPFlag is dominated by the nil check and the successful allocation)",
-	"IDX|pfcpiface.(*PFCPSession).MarkSessionQer|‹PFCPSession›.pdrs[‹int›].qerIDList[:‹int›2]":                          "findItemIndex returns a value in [0, len(slice)] (loop index or len) and the use is guarded by idx != len(s.pdrs[i].qerIDList) (secondary check R01.J2 on findItemIndex's returns)",
-	"IDX|pfcpiface.(*PFCPSession).MarkSessionQer|‹PFCPSession›.pdrs[‹int›].qerIDList[‹int›2+1:]":                        "same guard as the previous line: idx < len, so idx+1 <= len",
 	"BLK|pfcpiface.(*PFCPConn).shutdownConn|‹PFCPConn›.done <- ‹string›":                                                "node-level completion channel with capacity 100, drained by PFCPNode.Serve and, at stop, by waitForPFCPConns; never closed (C10 R10.2)",
 	"BLK|pfcpiface.(*bess).SendEndMarkers|‹bess›.endMarkerChan <- ‹[]byte›":                                             "channel of capacity 1024 created in SetUpfInfo; reported under C14/C10 scope only if the consumer loop is missing (R01.J3 checks that SetUpfInfo starts endMarkerSendLoop whenever end markers are enabled and the socket was dialled)",
 	"BLK|pfcpiface.(*UP4).SendEndMarkers|‹UP4›.endMarkerChan <- ‹[]byte›":                                               "channel of capacity 1024 created together with its consumer goroutine inside initOnce (R01.J3)",
